@@ -151,7 +151,7 @@ Section Stmts.
     | Some d => match pmap_get dpaths d with Some _ => true | None => false end
     | None => false end.
   Let wr_src (f : field) := match m_get (s_wmap s) (f_name f) with Some _ => true | None => false end.
-  Let wr_dst (f : field) := existsb (fun kv => String.eqb (f_name f) (snd kv)) (s_rmap s).
+  Let wr_dst (f : field) := existsb (fun kv => String.eqb (f_name f) (snd kv)) (m_live (s_rmap s)).
   Let src_alloc := ptr_path_list sigma (p_ptr ps) (s_src s) wr_src.
   Let dst_alloc := ptr_path_list sigma (p_ptr pd) (s_dst s) wr_dst.
 
@@ -164,7 +164,7 @@ Section Stmts.
     destruct (iv_tgt _ _ _ _ _ _ IT i j Hi T) as (Hj & _ & NM & J).
     destruct (src_ok i Hi) as (rl & Irl & Prl & Trl & Arl).
     destruct (dst_ok j Hj) as (wl & Iwl & Pwl & Twl & Awl).
-    destruct (i2_rmap _ _ _ _ _ _ _ I2 i j Hi T) as (RM & RIn).
+    pose proof (i2_rmap _ _ _ _ _ _ _ I2 i j Hi T) as RM.
     unfold stmt_ok. cbn [st_src st_dst st_how st_guard]. rewrite Arl, Awl, (func_ok_here true _ _ h J Hh). cbn [negb andb].
     assert (E1 : r_path (ref_of (src_at s i)) = rl_path rl) by (rewrite Prl; reflexivity).
     assert (E2 : r_path (ref_of (dst_at s j)) = rl_path wl) by (rewrite Pwl; reflexivity).
@@ -173,7 +173,7 @@ Section Stmts.
     destruct (write_leaf_ok e Eok F PDst dn dfs LkD wl Iwl) as (WL1 & WL2). rewrite WL1, WL2.
     rewrite (leaf_chain_ok _ _ _ _ Irl).
     assert (G : guard_of (src_need (f_name (src_at s i))) spaths (f_name (src_at s i)) = rl_hops rl).
-    { unfold src_need. destruct (m_get (s_rmap s) (f_name (src_at s i))); [|congruence].
+    { unfold src_need. rewrite RM.
       unfold spaths. rewrite guard_of_read; auto; [|apply nth_In; auto].
       apply (read_guard e Ewf Eok F PSrc sn sfs LkS true ps ParseS (src_at s i) rl Irl Prl). }
     rewrite G, list_eqb_refl.
@@ -181,8 +181,8 @@ Section Stmts.
     { apply forallb_forall. intros q Hq. apply mem_path_in. unfold dst_alloc.
       eapply (alloc_covers e Ewf F PDst dn dfs LkD false pd ParseD sigma Sigma (s_dst s) wr_dst (dst_at s j) wl q); eauto.
       - apply nth_In; auto.
-      - unfold wr_dst. apply existsb_exists. exists (f_name (src_at s i), f_name (dst_at s j)). split; auto.
-        simpl. apply String.eqb_refl. }
+      - unfold wr_dst. apply existsb_exists. exists (f_name (src_at s i), f_name (dst_at s j)).
+        split; [apply m_get_live; exact RM|]. simpl. apply String.eqb_refl. }
     rewrite AL.
     assert (RT : read_type_ok pe true h (rl_ty rl) = true).
     { rewrite Trl. apply (read_type_ok_intro e fns pe true (src_at s i) (dst_at s j) h); auto.
@@ -279,7 +279,7 @@ Lemma analyse_shape sigma jb a :
         pl_ctor (a_to a) = None
         /\ pl_alloc (a_to a) =
            with_ty (pr_dst pr) (ptr_path_list sigma (p_ptr (pr_dst pr)) (s_dst s2)
-              (fun f => existsb (fun kv => String.eqb (f_name f) (snd kv)) (s_rmap s2))))
+              (fun f => existsb (fun kv => String.eqb (f_name f) (snd kv)) (m_live (s_rmap s2)))))
     /\ (pr_use_s pr = false ->
         pl_ctor (a_from a) = None
         /\ pl_alloc (a_from a) =
@@ -401,7 +401,7 @@ Section Job.
     pose proof (from_stmts_ok e Ewf Eok F (j_src jb) (j_dst jb) sfs dfs LkS LkD ps pd ParseS ParseD sigma Sigma
                   (j_ic jb) (j_funcs jb) ws wd pe s2 (j_mapper_hop jb) (plain_gen_hop _ PL) I2 NdD FlS FlD SubOK) as FOK.
     destruct (alloc_list_ok e Ewf Eok F PDst (j_dst jb) dfs LkD false pd ParseD sigma Sigma SufD ZD (s_dst s2) FlD
-                (fun f => existsb (fun kv => String.eqb (f_name f) (snd kv)) (s_rmap s2))) as (AD1 & AD2).
+                (fun f => existsb (fun kv => String.eqb (f_name f) (snd kv)) (m_live (s_rmap s2)))) as (AD1 & AD2).
     destruct (alloc_list_ok e Ewf Eok F PSrc (j_src jb) sfs LkS true ps ParseS sigma Sigma SufS ZS (s_src s2) FlS
                 (fun f => match m_get (s_wmap s2) (f_name f) with Some _ => true | None => false end)) as (AS1 & AS2).
     assert (DS : decl_fields e PSrc (j_src jb) = sfs) by (unfold decl_fields; rewrite LkS; auto).
